@@ -1,6 +1,7 @@
 (* executable wrappers comparing the C12 model (binary64 instance, digest function H := identity on byte
    images, which is injective) with relations observed on the implementation *)
 From Coq Require Import ZArith Bool List PrimFloat.
+From PR Require Model.Grid Model.SliceArea Model.Stack.
 From PR Require Import Base.Num Base.F64 Base.Slice Base.ListX Model.HashEq Gen.GenC12 Model.C12_slice.
 Import ListNotations.
 Open Scope Z_scope.
@@ -129,26 +130,45 @@ Definition chk_swath_hist (pool : list geo) (c : swath_hist_case) : bool :=
   | _ => false
   end.
 
-(* ---- histories on a stack of areas (appends that do not merge with the last member) *)
+(* ---- histories on a stack of areas.  StackedAreaDefinition.append, with the merging of a member that continues
+   the last one (concatenate_area_defs / combine_area_extents_vertical), is C10's model (Model/Stack.v) *)
+Definition garea_of (a : harea float) : SliceArea.garea float :=
+  let '(x0, y0, x1, y1) := h_ext a in SliceArea.mk_garea (Grid.mk_area x0 y0 x1 y1 (h_w a) (h_h a)) (h_off a) 0 0 0 (h_crs a).
+Definition harea_of (g : SliceArea.garea float) : harea float :=
+  mk_harea (SliceArea.g_crs g) (SliceArea.gwidth g) (SliceArea.gheight g) (SliceArea.area_extent (SliceArea.g_area g)) (SliceArea.g_off g).
+Definition kstate := @Stack.stack float.
+Definition k_defs (s : kstate) : list (harea float) := map harea_of (Stack.stack_defs s).
+Definition k_image (s : kstate) : list (tok float) := stack_image F64 (k_defs s).
+Definition k_app_list (s : kstate) (ds : list (harea float)) : kstate :=
+  match Stack.stack_append_all F64 s (map garea_of ds) with Some s' => s' | None => s end.
+(* append(other) with other a StackedAreaDefinition appends its members one by one; a single area is a one-member stack *)
+Definition k_app (s o : kstate) : kstate :=
+  match Stack.stack_append_all F64 s (Stack.stack_defs o) with Some s' => s' | None => s end.
+Definition k_of (ds : list (harea float)) : kstate := k_app_list Stack.stack_empty ds.
+
 Inductive kop := KHash | KAppend (j : Z).
-(* observed: memo consistent, digest equal to that of a fresh stack of the same areas, digest equal to the original's *)
-Definition kobs := (bool * bool * bool)%type.
-Definition k_step := step (list (harea float)) (list (tok float)) unit (stack_image F64) (@app (harea float)) (fun c _ => c) (fun c => c).
+(* observed: memo consistent, hash and digest equal to those of a fresh stack of the same areas, digest equal to the
+   original's, number of members after merging *)
+Definition kobs := (bool * bool * bool * Z)%type.
+Definition k_step := step kstate (list (tok float)) unit k_image k_app (fun c _ => c) (fun c => c).
 Definition area_list_of (g : geo) : list (harea float) := match g with GA a => [a] | GSt l => l | _ => [] end.
-Fixpoint k_run (pool : list geo) (orig : list (harea float)) (o : obj (list (harea float)) (list (tok float)))
+Fixpoint k_run (pool : list geo) (orig : kstate) (fresh : kstate) (o : obj kstate (list (tok float)))
          (l : list (kop * kobs)) : bool :=
   match l with
   | [] => true
-  | (p, (mok, fok, deq)) :: r =>
-      let o' := k_step o (match p with KHash => OHash | KAppend j => OAppend (area_list_of (pick pool j)) end) in
+  | (p, (mok, fok, deq, nd)) :: r =>
+      let o' := k_step o (match p with KHash => OHash | KAppend j => OAppend (k_of (area_list_of (pick pool j))) end) in
+      (* the fresh stack: all members appended one by one to an empty stack *)
+      let fresh' := match p with KHash => fresh | KAppend j => k_app_list fresh (area_list_of (pick pool j)) end in
       let c := coords o' in
-      Bool.eqb (img_eqb (hash_of _ _ (stack_image F64) o') (stack_image F64 c)) mok
-      && Bool.eqb (img_eqb (hash_of _ _ (stack_image F64) o') (stack_image F64 c)) fok
-      && Bool.eqb (img_eqb (stack_image F64 c) (stack_image F64 orig)) deq
-      && k_run pool orig o' r
+      Bool.eqb (img_eqb (hash_of _ _ k_image o') (k_image c)) mok
+      && Bool.eqb (img_eqb (hash_of _ _ k_image o') (k_image fresh')) fok
+      && Bool.eqb (img_eqb (k_image c) (k_image orig)) deq
+      && (Z.of_nat (length (k_defs c)) =? nd)
+      && k_run pool orig fresh' o' r
   end.
 Definition stack_hist_case := (list Z * list (kop * kobs))%type.
 Definition chk_stack_hist (pool : list geo) (c : stack_hist_case) : bool :=
   let '(init, l) := c in
-  let c0 := concat (map (fun i => area_list_of (pick pool i)) init) in
-  k_run pool c0 (new_obj c0) l.
+  let c0 := k_of (concat (map (fun i => area_list_of (pick pool i)) init)) in
+  k_run pool c0 c0 (new_obj c0) l.
